@@ -234,9 +234,11 @@ def fixpoint(cond_timeout=120.0, path_timeout=20.0, max_iter=200):
 
 def _accepting_chain():
     """A token chain from the start configuration to some accepting configuration (used to prefix follow-up replays)."""
-    for i, (s, _) in enumerate(KNOWN):
-        if A["dfa"].is_accepting(A["states"][s]):
-            return chain(i)
+    # prefer a configuration in which every Balanced predicate is back at depth 0 (the header really ended there)
+    for want_zero in (True, False):
+        for i, (s, cls) in enumerate(KNOWN):
+            if A["dfa"].is_accepting(A["states"][s]) and (not want_zero or all(c == "0" for c in cls)) and PRED[i] is not None:
+                return chain(i)
     return []
 
 
